@@ -115,7 +115,13 @@ def judge_case(spec, do_collapse_pair=False, do_headers=False, do_table=False):
                     # cleavage site (absent from the liberal set when such sites are never trusted, present when optional)
                     o_r = cv.oracle_sets(case, lim=o['lim'].mixed_copy('robust'))
                     o_m = cv.oracle_sets(case, lim=o['lim'].mixed_copy('mixed'))
-                    res['collapse_diff_ctx'] = all(p not in o_r['may'] and p in o_m['may'] for p in (outset ^ s2))
+                    # context-affected: demanded only while context sites are trusted (in MUST, not in the robust MUST), or
+                    # realizable only when they are optional (outside MAY, inside the mixed MAY); a peptide with another,
+                    # undemanded derivation (e.g. a novel ORF of a coding transcript) still counts through its demanded one
+                    res['collapse_diff_ctx'] = all(
+                        (p in o_m['may'] and p not in o_r['must'] and (p in o['must'] or p not in o['may'])) or
+                        (p not in o_r['may'] and p in o_m['may'])
+                        for p in (outset ^ s2))
                 res['has_nested'] = any(e.tag == 'nested-donor' for bb in o['bbs'] for e in bb.edits)
                 res['collapse_cfg'] = alt
                 res['counters']['collapse_pairs'] = 1
